@@ -149,7 +149,7 @@ def reqStep (w : TW) (j : Nat) : TW :=
     | none => w
   else w
 
-theorem ts_iter2 (nm : String) (k j : Nat) (t : List Nat) (w : TW) (p : SP) (hp : w.prop j = some p) :
+theorem ts_iter2 (nm : String) (k j : Nat) (t : List Nat) (w : TW) (p : TSProp) (hp : w.prop j = some p) :
     (evalB (tsPrims d fs) (Env.def (Env.def (envT nm t) "_" (.int k)) "property" (.ref j 30)) w tsBody2).map
         (fun (e', w'', ctl) => (Env.leave e' (envT nm t).length, w'', ctl)) =
       some (envT nm t, reqStep d w j, .norm) := by
@@ -189,7 +189,7 @@ theorem ts_loop2 (nm : String) (t : List Nat) :
 
 /-! the two loops as functions of the world -/
 
-def mk1 (i : Nat) (r : String × String) : SP := ⟨i, d.nodeType, r.1, r.2, false⟩
+def mk1 (i : Nat) (r : String × String) : TSProp := ⟨i, d.nodeType, r.1, r.2, false⟩
 
 def new1 (w : TW) (i : Nat) : TW :=
   match recogS d i with
@@ -242,9 +242,9 @@ theorem new1_prop (l : List Nat) (w : TW) (k : Nat) (r : String × String) (hk :
       rw [hkeep rest _ hin]
       simp [new1, hr, setProp]
 
-theorem applyReq_idem (p : SP) : SP.applyReq d (SP.applyReq d p) = SP.applyReq d p := by
+theorem applyReq_idem (p : TSProp) : TSProp.applyReq d (TSProp.applyReq d p) = TSProp.applyReq d p := by
   obtain ⟨f, n, t, tv, rs⟩ := p
-  cases hr : d.required <;> cases hh : d.hasReq tv <;> cases rs <;> simp [SP.applyReq, SP.has, hr, hh]
+  cases hr : d.required <;> cases hh : d.hasReq tv <;> cases rs <;> simp [TSProp.applyReq, TSProp.has, hr, hh]
 
 theorem reqStep_meta (w : TW) (j : Nat) : (reqStep d w j).metaProps = w.metaProps := by
   unfold reqStep
@@ -255,18 +255,18 @@ theorem reqStep_meta (w : TW) (j : Nat) : (reqStep d w j).metaProps = w.metaProp
   · rfl
 
 theorem reqStep_prop (w : TW) (j k : Nat) :
-    (reqStep d w j).prop k = if k = j then (w.prop k).map (SP.applyReq d) else w.prop k := by
+    (reqStep d w j).prop k = if k = j then (w.prop k).map (TSProp.applyReq d) else w.prop k := by
   unfold reqStep
   by_cases hkj : k = j
   · subst hkj
     simp only [if_true]
     cases hr : d.required with
-    | false => cases hp : w.prop k <;> simp [SP.applyReq, hr, hp]
+    | false => cases hp : w.prop k <;> simp [TSProp.applyReq, hr, hp]
     | true =>
       cases hp : w.prop k with
       | none => simp [hp]
       | some p =>
-        cases hh : p.has d <;> simp [SP.applyReq, hr, hh, setProp, hp]
+        cases hh : p.has d <;> simp [TSProp.applyReq, hr, hh, setProp, hp]
   · simp only [hkj, if_false]
     split
     · split
@@ -282,7 +282,7 @@ theorem req_loop_meta (l : List Nat) (w : TW) : (l.foldl (reqStep d) w).metaProp
   | cons i rest ih => rw [List.foldl_cons, ih, reqStep_meta]
 
 theorem req_loop_prop (l : List Nat) (w : TW) (k : Nat) :
-    (l.foldl (reqStep d) w).prop k = if k ∈ l then (w.prop k).map (SP.applyReq d) else w.prop k := by
+    (l.foldl (reqStep d) w).prop k = if k ∈ l then (w.prop k).map (TSProp.applyReq d) else w.prop k := by
   induction l generalizing w with
   | nil => simp
   | cons j rest ih =>
@@ -317,7 +317,7 @@ theorem handed_is_spec (w : TW) :
     t.filterMap (t.foldl (reqStep d) (fs.foldl (new1 d) w)).prop = tagScanSpec d fs := by
   intro t
   have hcongr : t.filterMap (t.foldl (reqStep d) (fs.foldl (new1 d) w)).prop =
-      t.filterMap (fun i => (recogS d i).map fun r => SP.applyReq d (mk1 d i r)) := by
+      t.filterMap (fun i => (recogS d i).map fun r => TSProp.applyReq d (mk1 d i r)) := by
     apply filterMap_congr_mem
     intro k hk
     have hk' := List.mem_filter.mp hk
@@ -325,7 +325,7 @@ theorem handed_is_spec (w : TW) :
     rw [req_loop_prop, if_pos hk, new1_prop d fs w k r hk'.1 hr, hr]
     rfl
   rw [hcongr]
-  exact filterMap_filter_isSome (fun i => (recogS d i).map fun r => SP.applyReq d (mk1 d i r)) _
+  exact filterMap_filter_isSome (fun i => (recogS d i).map fun r => TSProp.applyReq d (mk1 d i r)) _
     (fun x => by cases recogS d x <;> rfl) fs
 
 /-- the world after the call -/
